@@ -87,19 +87,14 @@ def main(argv=None):
         print("ANALYSIS-ERROR property=%s the checker failed (see the traceback above)" % prop)
         return 2
 
-    known = [k for k in report.load_known_findings() if k.get("property") == prop and k.get("status") == "known"]
-    known_keys = {k["key"]: k for k in known}
-    viol = run.violations()
-    new, reported_known = [], []
-    seen_keys = set()
-    for o in viol:
+    # findings listed in known_findings.json (status "known") are reported as KNOWN-FINDING lines, never as violations
+    reported_known = run.known_hits()
+    new, seen_keys = [], set()
+    for o in run.violations():
         if o.key() in seen_keys:
             continue
         seen_keys.add(o.key())
-        if o.key() in known_keys:
-            reported_known.append(known_keys[o.key()])
-        else:
-            new.append(o)
+        new.append(o)
     wall = time.time() - t0
     if not args.no_evidence:
         report.write_evidence(run, getattr(mod, "META", {}), new, reported_known, wall, audit)
